@@ -172,13 +172,15 @@ def exec_owner(case, out):
         t.setRoot(f)
     root = t.getRoot()
     leaf = root
+    lvl = 0
     while leaf.payloads and isinstance(leaf.payloads[0], Fiber):
         leaf = leaf.payloads[0]
+        lvl += 1
     out["after_rid"] = str(root.getRankAttrs().getId())
     out["rank_rid"] = str(t.ranks[0].getId())
     out["after_shape"] = root.getShape(all_ranks=False)
     out["rank_shape"] = t.ranks[0].getShape(all_ranks=False)
     d1 = Payload.get(leaf.getDefault())
-    d2 = Payload.get(t.ranks[-1].getDefault())
-    out["after_dflt"] = int(d1) if isinstance(d1, int) else -999
-    out["rank_dflt"] = int(d2) if isinstance(d2, int) else -998
+    d2 = Payload.get(t.ranks[lvl].getDefault())          # the rank of the deepest fiber reached (an empty tree has only its root)
+    out["after_dflt"] = int(d1) if isinstance(d1, int) else (-997 if d1 is Fiber else -999)
+    out["rank_dflt"] = int(d2) if isinstance(d2, int) else (-997 if d2 is Fiber else -998)
